@@ -8,6 +8,7 @@ mod c01;
 mod c02;
 mod c03;
 mod c05;
+mod c06;
 mod c07;
 mod c08;
 mod c14;
@@ -34,6 +35,7 @@ fn gen(prop: &str, seed: u64, n: usize, tier: &str) -> Option<Vec<Case>> {
         "C02" => c02::gen(seed, n, tier),
         "C03" => c03::gen(seed, n, tier),
         "C05" => c05::gen(seed, n, tier),
+        "C06" => c06::gen(seed, n, tier),
         "C07" => c07::gen(seed, n, tier),
         "C08" => c08::gen(seed, n, tier),
         "C14" => c14::gen(seed, n, tier),
@@ -52,6 +54,7 @@ fn run(prop: &str, c: &Case) -> Option<Case> {
         "C02" => c02::run(c),
         "C03" => c03::run(c),
         "C05" => c05::run(c),
+        "C06" => c06::run(c),
         "C07" => c07::run(c),
         "C08" => c08::run(c),
         "C14" => c14::run(c),
@@ -68,6 +71,7 @@ fn judge(prop: &str, c: &Case) -> Vec<String> {
     match prop {
         "C02" => c02::judge(c, &c.outs),
         "C03" => c03::judge(c, &c.outs),
+        "C06" => c06::judge(c, &c.outs),
         "C14" => c14::judge(c, &c.outs),
         "C15" => c15::judge(c, &c.outs),
         "C16" => c16::judge(c, &c.outs),
